@@ -152,6 +152,33 @@ def run(ctx):
         R.ob('C15.optional', ('wire type', wt_, 'both directions'), bool(F.trait_impls('Serialize', wt_)) and d_ok,
              '%s implements both Serialize and Deserialize' % wt_, [])
 
+    # ------------------------------------------------------------------ every wire type always writes all its fields
+    # positional codecs (bincode) have no field names on the wire: a writer that leaves a field out (skip_serializing_if) produces bytes the reader of
+    # the same type mis-aligns.  The derived serializers must announce a constant field count and never call skip_field.
+    n_ser = 0
+    for im in F.trait_impls('Serialize'):
+        for name_, mid in im['methods']:
+            f_ = F.fns.get(mid)
+            if f_ is None or name_ != 'serialize':
+                continue
+            who = (im['self_head'] or '?').split('::')[-1]
+            bodies_ = F.with_descendants(f_)
+            skips = [(g, t) for g in bodies_ for _, t in g.calls() if strip_generics(t.get('callee') or '').endswith('::skip_field')]
+            lens = []
+            for g in bodies_:
+                for bb, t in g.calls():
+                    c = strip_generics(t.get('callee') or '')
+                    if c.endswith(('Serializer::serialize_struct', 'Serializer::serialize_struct_variant', 'Serializer::serialize_tuple_struct', 'Serializer::serialize_tuple_variant')):
+                        lens.append((g, t, P.fold_int(P.operand(g, t['args'][-1], at=bb))))
+            if not lens and not skips:
+                continue
+            n_ser += 1
+            R.ob('C15.fields', (im['self_head'] or '?', 'writes a constant number of fields'), not skips and all(v is not None for _, _, v in lens),
+                 'the serializer of %s announces a compile-time constant number of fields and never skips one, so positional codecs stay aligned with the reader' % who,
+                 [g.loc(t) for g, t in skips] or [g.loc(t) for g, t, _ in lens], 'field counts: %s; skip_field calls: %d' % ([v for _, _, v in lens], len(skips)))
+    if n_ser < 5:
+        raise CannotDecide('derived struct serializers of wire types: %d (floor 5)' % n_ser)
+
     # ------------------------------------------------------------------ forwarders
     transports = [('transport::channel::UnboundedChannel', ('UnboundedSender::send',), ('UnboundedReceiver::poll_recv',)),
                   ('transport::channel::Channel', ('Sink::start_send', 'mpsc::Sender::start_send'), ('Stream::poll_next',)),
